@@ -92,12 +92,11 @@ def run(ctx):
     names = [n for _, n, _ in fl.calls()]
     ck.ob("C06-R2", fl.path, "a-new-mapper-starts-from-State::init", MOD + "State::init" in names and MOD + "make_hashed_layout" in names)
     # the C01 rules (nothing held on input => IP, PT, MO, AM empty) hold on this tree
-    from ..report import Check
-    from ..ctx import Ctx
-    sub = Check("C01", quiet=True)
-    c01.run(Ctx(ctx.F, sub, ctx.tier))
-    ck.ob("C06-R2", "-", "C01-invariant-rules-hold(four-list-fields-empty-at-rest)", not sub.violations,
-          detail="%d obligations re-run, %d violated" % (len(sub.obligations), len(sub.violations)))
+    from .. import premises
+    if not getattr(ctx, "no_premises", False):
+        bad = premises.own_violations(ctx, "C01")
+        ck.ob("C06-R2", "-", "C01-invariant-rules-hold(four-list-fields-empty-at-rest)", not bad,
+              detail=None if not bad else "%d rule(s) of C01 fail, first: %s" % (len(bad), bad[0][:200]))
     # ---------------- R3 repeating_trigger is write-only
     readers = []
     for p in sorted(ctx.F.bodies):
